@@ -70,6 +70,8 @@ func c04FixedProbes() []c04Probe {
 		pr("scalars-only", "1\n2\n", 3072, "text/plain; charset=utf-8|.txt"),
 		pr("not-json", `{"a":1} x`, 3072, "text/plain; charset=utf-8|.txt"),
 		pr("not-json-2", `[1,2`, 3072, "text/plain; charset=utf-8|.txt"),
+		pr("lone-bracket", `[`, 3072, "text/plain; charset=utf-8|.txt"),
+		pr("lone-brace-ws", " {\n", 3072, "text/plain; charset=utf-8|.txt"),
 		pr("ragged-csv", "a,b\n1,2,3\n", 3072, "text/plain; charset=utf-8|.txt"),
 		pr("plain", "plain text here", 3072, "text/plain; charset=utf-8|.txt"),
 		pr("plain-utf8", "caf\xC3\xA9", 3072, "text/plain; charset=utf-8|.txt"),
@@ -509,7 +511,7 @@ func init() {
 	fw.Register(&fw.Prop{
 		ID:    "C04",
 		Level: "exploration",
-		Rule: "probes (43 fixed + generated JSON objects / tables / NDJSON, each with an expectation decided by construction: JSON sub-type family, cut JSON, CSV/TSV/NDJSON, blank-line texts, texts of every charset class, HTML/XML with upper-case declarations, binaries) are detected (a) as the first and only detection of a fresh process (one process per probe) and (b) after histories of 1-6 predecessor detections drawn from 32 kinds (satisfied / unsatisfied sub-type queries, parses aborted in a key / after a colon / in a string / in an escape / on a bad token, cut at the limit, nesting bombs with path stacks > 128, deep objects, CSV readers left mid-record, 1 MiB inputs, a failing reader, empty, binary) with GOMAXPROCS=1 and GC off; EVERY ordered pair of predecessor kinds x every fixed probe is run; the pooled parser state seen just before each probe is recorded through the pool-peek hook. Every seed / probe / predecessor input is also detected from read-only pages (a write faults), three times (twice directly, once through a reader), and with 5 different tails / spare-capacity contents beyond the limit. The history workload is repeated on 12 goroutines under the race detector; in further rounds a goroutine keeps switching the limit between two values under which a long JSON / CSV / NDJSON input has the same sequential answer while 6 goroutines detect it (the answer must be that one). " +
+		Rule: "probes (45 fixed + generated JSON objects / tables / NDJSON, each with an expectation decided by construction: JSON sub-type family, cut JSON, CSV/TSV/NDJSON, blank-line texts, texts of every charset class, HTML/XML with upper-case declarations, binaries) are detected (a) as the first and only detection of a fresh process (one process per probe) and (b) after histories of 1-6 predecessor detections drawn from 32 kinds (satisfied / unsatisfied sub-type queries, parses aborted in a key / after a colon / in a string / in an escape / on a bad token, cut at the limit, nesting bombs with path stacks > 128, deep objects, CSV readers left mid-record, 1 MiB inputs, a failing reader, empty, binary) with GOMAXPROCS=1 and GC off; EVERY ordered pair of predecessor kinds x every fixed probe is run; the pooled parser state seen just before each probe is recorded through the pool-peek hook. Every seed / probe / predecessor input is also detected from read-only pages (a write faults), three times (twice directly, once through a reader), and with 5 different tails / spare-capacity contents beyond the limit. The history workload is repeated on 12 goroutines under the race detector; in further rounds a goroutine keeps switching the limit between two values under which a long JSON / CSV / NDJSON input has the same sequential answer while 6 goroutines detect it (the answer must be that one). " +
 			"non-trivial = the pooled parser state observed before the probe was dirty (non-zero inspected bytes / path / token / satisfied flag); distinct = distinct (history, probe, pool state) tuples and (tail kind, result) pairs.",
 		Assumptions: []string{
 			"sync.Pool may drop objects: reuse is observed (pool-peek evidence), not forced; under -race pools drop at random",
